@@ -90,7 +90,9 @@ def parse_tlc(out, res):
         v = 'Invariant ' + m.group(1)
     elif re.search(r'Error: Action property (\S+)', out):
         v = 'ActionProperty ' + re.search(r'Error: Action property (\S+)', out).group(1)
-    elif 'Temporal properties were violated' in out or re.search(r'Temporal property \S+ was violated', out):
+    elif re.search(r'Temporal property (\w+) was violated', out):
+        v = 'Temporal ' + re.search(r'Temporal property (\w+) was violated', out).group(1)
+    elif 'Temporal properties were violated' in out:
         v = 'Temporal'
     elif 'Error: Deadlock reached' in out:
         v = 'Deadlock'
